@@ -11,6 +11,9 @@ Proof. intros. unfold upd. rewrite Nat.eqb_refl. reflexivity. Qed.
 Lemma upd_other : forall A (f : nat -> A) k v x, x <> k -> upd f k v x = f x.
 Proof. intros. unfold upd. destruct (Nat.eqb x k) eqn:E; [apply Nat.eqb_eq in E; contradiction | reflexivity]. Qed.
 
+Lemma resize_to_same : forall l v, resize_to (length l) v l = l.
+Proof. induction l as [|x r IH]; intros v; simpl; [reflexivity | rewrite IH; reflexivity]. Qed.
+
 Lemma shared_false : forall nh s h h', shared nh s h = false -> h' < nh -> h' <> h -> c_hd s h' <> c_hd s h.
 Proof.
   intros nh s h h' Hs Hlt Hne E. unfold shared in Hs.
@@ -50,7 +53,13 @@ Proof.
       destruct (Nat.eq_dec h h1) as [E'|E'].
       * subst. rewrite !upd_same. apply R. exact E2.
       * rewrite !upd_other by exact E'. apply R. exact Hh.
-  - subst d. destruct (Nat.ltb h nh) eqn:E; [|exact R]. apply Nat.ltb_lt in E.
+  - subst d. destruct (Nat.ltb h nh) eqn:E; [|exact R]. apply Nat.ltb_lt in E. simpl.
+    destruct (is_noop m (c_heap s (c_hd s h))) eqn:En; simpl.
+    { (* resize to the present size: nothing happens on either side *)
+      destruct m; simpl in En; try discriminate. apply Nat.eqb_eq in En.
+      intros h' Hh'. destruct (R h' Hh') as [A1 A2]. split; [exact A1|].
+      destruct (Nat.eq_dec h' h) as [E'|E']; [|rewrite upd_other by exact E'; exact A2].
+      subst h'. rewrite upd_same. simpl. rewrite <- A2. rewrite En. symmetry. apply resize_to_same. }
     destruct (detach_rel nh s v h R E) as [R1 R2]. set (s1 := detach nh s h) in *.
     intros h' Hh'. simpl. destruct (R1 h' Hh') as [A1 A2]. split; [exact A1|].
     destruct (Nat.eq_dec h' h) as [E'|E'].
